@@ -92,6 +92,22 @@ def two_files_case(case, rng, viol, counts, classes):
     return desc, None
 
 
+_IM = {}
+
+
+def _interaction_type(a, b):
+    """'N' / 'I' / '-' for two group types, read from the shipped interaction matrix (lower triangle rows)."""
+    if not _IM:
+        from .. import util
+        rows = util.parse_cfg()["interaction_matrix"]
+        names = [r[0] for r in rows]
+        for i, r in enumerate(rows):
+            for j, v in enumerate(r[1:]):
+                _IM[(names[i], names[j])] = v
+                _IM[(names[j], names[i])] = v
+    return _IM.get((a, b))
+
+
 def run_case(case, tier):
     from .. import obs, pdbio, sources, util
     from ..monitors import census_mon
@@ -310,7 +326,10 @@ def run_case(case, tier):
                     # (or two bases) the group with the lower model pKa is shifted down and its partner up by the
                     # same amount - whichever of the two comes first in the file
                     partners = [h for (kk, _t), h in la.items() if tuple(kk) == tuple(d[0]) and h["charge"] == g["charge"] and not h["titratable"]]
-                    if len(partners) == 1 and partners[0]["model_pka"] != g["model_pka"] and g["label"] not in pen and partners[0]["label"] not in pen:
+                    # (pairs the configuration marks 'I' are settled by the iteration - the group whose pKa is the
+                    # higher one at that point is raised - not by the model values)
+                    if len(partners) == 1 and partners[0]["model_pka"] != g["model_pka"] and g["label"] not in pen and partners[0]["label"] not in pen \
+                            and _interaction_type(g["type"], partners[0]["type"]) == "N":
                         ptn = partners[0]
                         tot = sum(x[3] for x in g["det"]["sidechain"] if tuple(x[0]) == tuple(d[0]))
                         back = sum(x[3] for x in ptn["det"]["sidechain"] if tuple(x[0]) == tuple(g["akey"]))
